@@ -1,11 +1,10 @@
 CONSTANTS
-  MaxN = 4
-  GatherMaxN = 0
-  Shapes = {"scatter"}
-  MaxFaults = 4
-  Batches = 2
+  MaxN = 3
+  GatherMaxN = 2
+  Shapes = {"scatter", "gather"}
+  MaxFaults = 2
+  Batches = 1
   Mutants = {"none"}
-  Dev = 0
 INIT Init
 NEXT Next
 INVARIANT TypeOK
